@@ -508,7 +508,16 @@ class SymEval:
                 elif isinstance(k, ast.Constant):
                     kv = k.value
                 else:
-                    raise AnalysisError('non-constant exponent in `%s`' % U(e))
+                    # an exponent that folds to a constant under the current environment (e.g. 1.0/p with p = 2)
+                    try:
+                        kx = self.ev(k)
+                    except AnalysisError:
+                        kx = None
+                    if kx is not None and kx.is_rat() and kx.rat().isconst():
+                        kv = kx.rat().constval()
+                        kv = int(kv) if kv.denominator == 1 else float(kv)
+                    else:
+                        raise AnalysisError('non-constant exponent in `%s`' % U(e))
                 if kv == 0.5:
                     return base.sqrt()
                 if kv == -0.5:
